@@ -129,6 +129,54 @@ class FakePtr(object):
         return None
 
 
+from pysasl.mechanism import ServerMechanism, ServerChallenge as _SC
+from pysasl.creds.server import ServerCredentials as _ServerCreds
+
+
+class TokenCredentials(_ServerCreds):
+    def __init__(self, token, kind):
+        super(TokenCredentials, self).__init__()
+        self._token = token
+        self._kind = kind
+
+    @property
+    def authcid(self):
+        return self._token
+
+    @property
+    def authzid(self):
+        return self._token
+
+    def verify(self, identity):
+        return False
+
+
+class TokenMechanism(ServerMechanism):
+    """a site / plug-in SASL mechanism: the client's answer to the challenge 'Token:' is a bearer token"""
+    _kind = 3
+
+    def server_attempt(self, responses):
+        if not responses:
+            raise _SC(b'Token:')
+        return TokenCredentials(responses[0].response.decode('utf-8'), self._kind), None
+
+
+class TokenInsecure(TokenMechanism):
+    insecure = True          # the mechanism says itself that it puts the secret on the wire
+    _kind = 2
+
+
+class TokenSecure(TokenMechanism):
+    insecure = False
+
+
+TOKEN_MECHS = [b'X-TOK-I', b'X-TOK-S', b'X-TOK-N']
+
+
+def token_mechanisms():
+    return [TokenInsecure(b'X-TOK-I'), TokenSecure(b'X-TOK-S'), TokenMechanism(b'X-TOK-N')]
+
+
 _saved = {}
 
 
@@ -146,8 +194,11 @@ def install():
     cache = []
 
     def cached(cls):
+        # pysasl's entry-point scan, memoised, plus the harness's plug-in mechanisms (what a site
+        # registers through the pysasl.mechanism entry-point group)
         if not cache:
             cache.extend(orig())
+            cache.extend(token_mechanisms())
         return list(cache)
     pysasl.SASLAuth._get_builtin_mechanisms = classmethod(cached)
 
@@ -189,6 +240,8 @@ def _params(ps):
 
 
 def _creds(c):
+    if isinstance(c, TokenCredentials):
+        return (c._kind, c._token.encode('utf-8'), b'', c._token.encode('utf-8'))
     if isinstance(c, pysasl.mechanism.crammd5.CramMD5Result):
         return (1, c._username.encode('utf-8'), bytes(c._digest), bytes(c._challenge))
     return (0, c.authcid.encode('utf-8'), c._secret.encode('utf-8'), c.authzid.encode('utf-8'))
@@ -364,7 +417,7 @@ def run_server_case(case):
     rec = Rec(case)
     cls = TraceSessionHook if any(k == K_STLS for k, a, v in case.get('verdicts', [])) else TraceSession
     session = cls(rec, ADDR, make_validators(rec), handoff_for(rec))
-    server = Server(a, session, ADDR, auth=(list(MECHS) if case['auth'] == 2 else bool(case['auth'])),
+    server = Server(a, session, ADDR, auth=(list(MECHS) + list(TOKEN_MECHS) if case['auth'] == 3 else list(MECHS) if case['auth'] == 2 else bool(case['auth'])),
                     context=(sctx if case['context'] else None), tls_immediately=bool(case['imm']))
     rec.server = server
 
@@ -484,7 +537,7 @@ def model_input(case, r):
     cfg = [case['context'], case['imm'], 1, 1 if case['auth'] else 0, []]
     vt = [[k, a, v] for k, a, v in case.get('verdicts', []) if k != K_QUEUED]
     qt = [[9, b'', v] for k, a, v in case.get('verdicts', []) if k == K_QUEUED]
-    return [cfg, [1 if case['auth'] == 2 else 0, MSGID.encode()], vt, qt, [], hs, r['plain'], r['tls']]
+    return [cfg, [1 if case['auth'] in (2, 3) else 0, MSGID.encode(), 1 if case['auth'] == 3 else 0], vt, qt, [], hs, r['plain'], r['tls']]
 
 
 def model_view(o):
@@ -795,7 +848,7 @@ def oracle_server(ctx, case, r, twin=None):
             enc, creds, code = ev[1], ev[2], ev[3]
             if not st['ehlo'] or st['authed'] or st['mail']:
                 fail(ctx, 'c08:auth-outside-permitted-state', case, 'AUTH handler called with %r' % (st,))
-            if creds[0] == 0 and not enc:
+            if creds[0] in (0, 2) and not enc:      # PLAIN/LOGIN credentials, or a mechanism that flags itself insecure
                 fail(ctx, 'c08:plaintext-mechanism-without-tls', case,
                          'a plain-text SASL mechanism was accepted on an unencrypted session: AUTH handler called with authcid %r, encryption flag 0' % (creds[1],))
             if code == (235,):
@@ -836,9 +889,22 @@ def oracle_server(ctx, case, r, twin=None):
                 fail(ctx, 'c08:malformed-auth-ends-session', case,
                          'the NOOP after the AUTH lines was not answered with 250: %r (session end %r %r)' % (
                              r['steps'][j][1] if j < len(r['steps']) else None, r['end'], r['crash']))
+    # (6b) an AUTH line without initial response that is permitted must be answered with the
+    #      mechanism's first challenge - whatever earlier AUTH lines of the session carried
+    clear_plain = any(ev[0] == 1 and ev[2][0] in (0, 2) and not ev[1] for ev in r['events'])   # reported under (5)
+    for i in (() if clear_plain else case.get('challenged', ())):
+        j = (0 if case['imm'] else 1) + i
+        if j >= len(r['steps']):
+            break
+        chan, data, parsed = r['steps'][j]
+        if not parsed or parsed[0][0] != 334:
+            fail(ctx, 'c08:auth-exchange-uses-earlier-attempt', case,
+                 'AUTH line %r (no initial response, permitted here) was answered %r instead of the first 334 challenge: '
+                 'the exchange did not start from scratch' % (script[i][1], data))
+            break
     # (7) credentials: what the handler was given = what this client sent
     want = case.get('creds')
-    if want is not None and r['end'] != 2 and not any(ev[0] == 1 and ev[2][0] == 0 and not ev[1] for ev in r['events']):
+    if want is not None and r['end'] != 2 and not any(ev[0] == 1 and ev[2][0] in (0, 2) and not ev[1] for ev in r['events']):
         # (a plain-text mechanism that got through in clear text, or a crashed session, is reported above)
         got = [ev[2] for ev in r['events'] if ev[0] == 1]
         if got != [tuple(w) for w in want]:
@@ -1001,6 +1067,8 @@ PLAIN_UNI_RAW = 'zid\0é中\0\U0001f600pw'.encode('utf-8')
 PLAIN_UNI = b64(PLAIN_UNI_RAW)
 CR_OK = (0, b'user', b'pw', b'user')
 CR_UNI = (0, 'é中'.encode('utf-8'), '\U0001f600pw'.encode('utf-8'), b'zid')
+TOK = 'tok-\u00e9\u4e2d'.encode('utf-8')
+TOK_B64 = b64(TOK)
 CRAM_RESP = b64(b'bob 0123abcd')
 CR_CRAM = (1, b'bob', b'0123abcd', MSGID.encode())
 
@@ -1055,7 +1123,22 @@ AUTH_SHAPES = [
     (b'AUTH -_-', [], []),
     (b'AUTH XOAUTH2 abc', [], []),
     (b'AUTH PLAIN' + b'\x0b' + PLAIN_OK, [], [CR_OK]),
+    # site mechanisms (TokenMechanism): X-TOK-I flags itself insecure, X-TOK-S says insecure = False,
+    # X-TOK-N has no such attribute; none of the names is in slimta.smtp.auth.insecure_mechanisms
+    (b'AUTH X-TOK-I ' + TOK_B64, [], [(2, TOK, b'', TOK)]),
+    (b'AUTH X-TOK-I', [TOK_B64], [(2, TOK, b'', TOK)]),
+    (b'AUTH X-TOK-S ' + TOK_B64, [], [(3, TOK, b'', TOK)]),
+    (b'AUTH X-TOK-S', [TOK_B64], [(3, TOK, b'', TOK)]),
+    (b'AUTH X-TOK-N ' + TOK_B64, [], [(3, TOK, b'', TOK)]),
+    (b'AUTH x-tok-n', [TOK_B64], [(3, TOK, b'', TOK)]),
+    (b'AUTH X-TOK-I *', [], []),
+    (b'AUTH X-TOK-N', [b64(b'\xff')], []),
+    # refused before any challenge, but carrying an initial response
+    (b'AUTH NTLM ' + PLAIN_UNI, [], []),
+    (b'AUTH FOO ' + b64(b'mallory'), [], []),
 ]
+INSECURE_NAMES = (b'PLAIN', b'LOGIN', b'X-TOK-I')
+KNOWN_NAMES = (b'PLAIN', b'LOGIN', b'CRAM-MD5', b'X-TOK-I', b'X-TOK-S', b'X-TOK-N')
 SHORT_SHAPES = [0, 1, 7, 21, 30, 39, 42]
 
 AUTH_STATES = ['ehlo', 'noehlo', 'mail', 'authed', 'failed']
@@ -1083,9 +1166,9 @@ def auth_case(channel, state, shape_i, verdict=0, second=True):
         script.append(('send', a + b'\r\n'))
     auth_lines = list(range(first, len(script)))
     encrypted = channel != 'clear'
-    plain_mech = line.split()[1:2] and line.split()[1].upper() in (b'PLAIN', b'LOGIN')
+    plain_mech = line.split()[1:2] and line.split()[1].upper() in INSECURE_NAMES
     permitted = state in ('ehlo', 'failed') and (encrypted or not plain_mech)
-    case = dict(kind='server', context=0 if channel == 'clear' else 1, imm=1 if channel == 'imm' else 0, auth=2,
+    case = dict(kind='server', context=0 if channel == 'clear' else 1, imm=1 if channel == 'imm' else 0, auth=3,
                 script=script, auth_lines=auth_lines, name='auth/%s/%s/%d/v%d' % (channel, state, shape_i, verdict))
     want = list(creds) if permitted else []
     if state == 'authed':
@@ -1309,6 +1392,74 @@ def refused_starttls_cases():
     return cs
 
 
+def shape_mech(i):
+    parts = AUTH_SHAPES[i][0].split()
+    return parts[1].upper() if len(parts) > 1 else None
+
+
+def has_initial(i):
+    return len(AUTH_SHAPES[i][0].split()) > 2
+
+
+def multi_auth_case(place, idxs, name=None):
+    """several AUTH attempts in one session.  place: 'tls' all under immediate TLS; 'across' the first in
+    clear text, then STARTTLS + EHLO, the others over TLS; 'clear' all in clear text.  The credentials the
+    handler must see and the AUTH lines that must be challenged are those of each attempt ALONE."""
+    script = []
+    enc = False
+    if place == 'tls':
+        script.append(('tls',))
+        enc = True
+    script.append(('send', b'EHLO b.example\r\n'))
+    want, challenged, auth_lines = [], [], []
+    authed = False
+    for n, i in enumerate(idxs):
+        line, answers, creds = AUTH_SHAPES[i]
+        if place == 'across' and n == 1:
+            script += [('send', b'STARTTLS\r\n'), ('tls',), ('send', b'EHLO c.example\r\n')]
+            enc = True
+        mech = shape_mech(i)
+        permitted = (not authed) and mech in KNOWN_NAMES and (enc or mech not in INSECURE_NAMES)
+        if permitted and not has_initial(i):
+            challenged.append(len(script))
+        auth_lines.append(len(script))
+        script.append(('send', line + b'\r\n'))
+        for a in answers:
+            script.append(('send', a + b'\r\n'))
+        if permitted:
+            want += list(creds)
+            if creds:
+                authed = True
+    script.append(('send', b'NOOP\r\n'))
+    return dict(kind='server', context=0 if place == 'clear' else 1, imm=1 if place == 'tls' else 0, auth=3,
+                script=script, verdicts=[], creds=want, challenged=challenged,
+                name=name or 'multi-auth/%s/%s' % (place, '-'.join(str(i) for i in idxs)))
+
+
+def multi_auth_cases(ctx):
+    n = len(AUTH_SHAPES)
+    cs = []
+    if ctx.quick:
+        firsts = [i for i in range(n) if has_initial(i)]
+        seconds = [i for i in range(n) if not has_initial(i)]
+        for place in ('tls', 'across'):
+            for i in firsts:
+                for j in seconds:
+                    cs.append(multi_auth_case(place, (i, j)))
+        for _ in range(300):
+            cs.append(multi_auth_case(ctx.rng.choice(['tls', 'across', 'clear']), (ctx.rng.randrange(n), ctx.rng.randrange(n))))
+        for _ in range(150):
+            cs.append(multi_auth_case(ctx.rng.choice(['tls', 'across', 'clear']), tuple(ctx.rng.randrange(n) for _ in range(3))))
+    else:
+        for place in ('tls', 'across', 'clear'):
+            for i in range(n):
+                for j in range(n):
+                    cs.append(multi_auth_case(place, (i, j)))
+        for _ in range(4000):
+            cs.append(multi_auth_case(ctx.rng.choice(['tls', 'across', 'clear']), tuple(ctx.rng.randrange(n) for _ in range(3))))
+    return cs
+
+
 def misc_cases():
     cs = []
     # handshake that fails (the client talks plain text where the ClientHello should be)
@@ -1421,14 +1572,20 @@ def prim_parse_arg(ctx):
                 continue
             ins.append(s)
     ins += [l.split(None, 1)[1] for l, _, _ in AUTH_SHAPES if len(l.split(None, 1)) > 1 and l.split(None, 1)[1].strip() == l.split(None, 1)[1]]
-    a = AuthSession(None, None)
     outs = ctx.model.batch('c08_parse_auth', ins)
     for i, o in zip(ins, outs):
+        # whatever the code under test does here must become a comparison result, never a harness error
         try:
-            name, arg = a._parse_arg(i)
-            want = (name,) if arg is None else (name, arg)
+            a = AuthSession(None, None)
+            res = a._parse_arg(i)
+            if isinstance(res, tuple) and len(res) == 2 and isinstance(res[0], bytes) and (res[1] is None or isinstance(res[1], bytes)):
+                want = (res[0],) if res[1] is None else (res[0], res[1])
+            else:
+                want = ('unexpected result', repr(res))
         except SmtpError:
             want = ()
+        except Exception as e:
+            want = ('exception', type(e).__name__)
         got = tuple(B(x) for x in o)
         ctx.evaluated(('parse_arg', i), nontrivial=len(want) > 0)
         ctx.count('parse_arg:%d' % len(want))
@@ -1440,13 +1597,13 @@ def prim_mech(ctx):
     from pysasl.mechanism import ServerChallenge, ChallengeResponse
     from pysasl.exception import AuthenticationError
     rng = ctx.rng
-    auth = pysasl.SASLAuth.named(MECHS)
+    auth = pysasl.SASLAuth.named(MECHS + TOKEN_MECHS)
     pool = [b'', b'\0', b' ', b'a', b'user', b'pw', b'\xff', 'é'.encode('utf-8'), '\U0001f600'.encode('utf-8'), b'\n', b'\xed\xa0\x80', b'\xc0\xaf']
 
     def resp():
         return b''.join(rng.choice(pool) for _ in range(rng.randrange(0, 7)))
     ins = []
-    for name in MECHS:
+    for name in MECHS + TOKEN_MECHS:
         ins.append((name, []))
         for _ in range(700 if ctx.quick else 6000):
             ins.append((name, [(MSGID.encode() if name == b'CRAM-MD5' else b'c', resp()) for _ in range(rng.randrange(1, 4))]))
@@ -1475,8 +1632,8 @@ def prim_mech(ctx):
                      'pysasl %s.server_attempt raised %s: neither ServerChallenge, AuthenticationError nor ValueError - the AUTH command would end the session with 421' % (name, want[1]))
         elif got != want:
             ctx.mismatch('mechanism', (name, rs), want, got)
-        want_insecure = 1 if name in getattr(auth_mod, 'insecure_mechanisms', ()) or getattr(m, 'insecure', False) else 0
-        if o and name != b'CRAM-MD5' and o[0] != 1:
+        want_insecure = int(bool(getattr(m, 'insecure', name in INSECURE_NAMES)))
+        if o and o[0] != want_insecure:
             ctx.mismatch('insecure-flag', name, want_insecure, o[0])
 
 
@@ -1504,6 +1661,7 @@ def all_server_cases(ctx):
     cases += graph_cases()
     cases += greet_cases(ctx)
     cases += refused_starttls_cases()
+    cases += multi_auth_cases(ctx)
     for n in range(400 if ctx.quick else 8000):
         cases.append(random_case(ctx.rng, n))
     return cases
